@@ -1,7 +1,7 @@
 (* C16 - the state dump shows the true machine state, completely and parseably.
    Property theorems only; proofs live in DumpProofs.v. *)
 From Coq Require Import Permutation.
-From HclV Require Import Base Expr Disasm DisasmProofs Machine MemSpec DumpSpec DumpProofs TableSpec TableProofs.
+From HclV Require Import Base Expr Disasm DisasmProofs Machine MemSpec DumpSpec DumpProofs TableSpec TableProofs DumpParse DumpParseSpec DumpParseProofs.
 Open Scope string_scope.
 Open Scope N_scope.
 
@@ -80,3 +80,42 @@ Print Assumptions C16_canonical_bank_order_exists_uniquely.
 Theorem C16_bank_section_fails_iff : stmt_bank_dump_fails_iff.
 Proof. exact bank_dump_fails_iff_holds. Qed.
 Print Assumptions C16_bank_section_fails_iff.
+
+(* ---- "so the dump can be read back into exactly that state" (DumpParse.v: a reader written the
+   way a script would - split lines, check the '| ' .. ' |' delimiters, split fields, unhex - that
+   never mentions the printer; DumpParseSpec.v / DumpParseProofs.v) ------------------------------ *)
+
+(* the memory section reads back to exactly the memory, for every well-formed memory *)
+Theorem C16_memory_reads_back :
+  forall m, wf_mem m -> parse_memory_section (dump_memory m) = Some m.
+Proof. exact memory_readback_holds. Qed.
+Print Assumptions C16_memory_reads_back.
+
+(* hence two different memories never print the same text *)
+Theorem C16_memory_dump_injective : stmt_memory_dump_injective.
+Proof. exact memory_dump_injective_holds. Qed.
+Print Assumptions C16_memory_dump_injective.
+
+(* the fifteen program registers read back *)
+Theorem C16_registers_read_back : stmt_registers_readback.
+Proof. exact registers_readback_holds. Qed.
+Print Assumptions C16_registers_read_back.
+
+(* a bank line (wrapped over any number of lines) reads back to the bank's label, its
+   normal/stalled/bubbled state and every register with its value, for identifier-like names *)
+Theorem C16_bank_reads_back : stmt_bank_readback.
+Proof. exact bank_readback_holds. Qed.
+Print Assumptions C16_bank_reads_back.
+(* the condition on names is needed: a register named "x=0 y" prints like two registers *)
+Theorem C16_bank_readback_needs_plain_names : ~ stmt_bank_readback_unconditional.
+Proof. exact bank_readback_unconditional_refuted. Qed.
+Print Assumptions C16_bank_readback_needs_plain_names.
+
+(* the whole dump, under every heading (running / halted / error / timed out), with or without
+   banks: registers, EVERY declared bank exactly once (canonical order), memory *)
+Theorem C16_whole_dump_reads_back : stmt_dump_readback.
+Proof. exact dump_readback_holds. Qed.
+Print Assumptions C16_whole_dump_reads_back.
+Theorem C16_whole_dump_reads_back_every_bank : stmt_dump_readback_perm.
+Proof. exact dump_readback_perm_holds. Qed.
+Print Assumptions C16_whole_dump_reads_back_every_bank.
